@@ -1067,6 +1067,9 @@ func execNet(t *testing.T, raw json.RawMessage, res *Result, focus string) {
 		cr := n.Run(t, args...)
 		SQLFault.Arm(0)
 		net.emptyPacks = false
+		if os.Getenv("VERIF_DEBUG") != "" {
+			fmt.Fprintf(os.Stderr, "DEBUG %s: wrgl %s -> err=%v\n%s\n", when, strings.Join(args, " "), cr.Err, cr.Stdout)
+		}
 		if net.Storm {
 			res.Violate(pfx+"-request-storm", "%s (`wrgl %s`): the client sent more than %d requests in one operation (it keeps asking a remote that answers with empty packfiles)", when, strings.Join(args, " "), net.OpBudget)
 			return
